@@ -195,7 +195,10 @@ impl<'a> Runner<'a> {
     }
 
     /// Clauses "time, fault latch, cycle counter, frames, task state reset" after any restart.
-    fn check_resets(&mut self, d: &Dump) {
+    fn check_resets(&mut self, d: &Dump, mode: Mode) {
+        if mode == Mode::Cold && (d.i != "-" || d.q != "-" || d.m != "-") {
+            self.fail("cold-images", format!("I={} Q={} M={} after restart(Cold)", d.i, d.q, d.m));
+        }
         if d.res != "ok" {
             self.fail("restart-error", d.res.clone());
             return;
@@ -235,6 +238,26 @@ impl<'a> Runner<'a> {
                     "fb-member-retain",
                     format!("{}: before={} after={} expected={} (member {:?}, instance {:?})", i.path, before, after, expected, i.pol, i.owner_pol),
                 ),
+            }
+        }
+    }
+
+    /// Warm restart + `load_retain_store` (the resource loop's restart step): RETAIN/PERSISTENT
+    /// globals must still have their pre-restart value.
+    fn check_warm_after_load(&mut self, pre: &Dump, after: &Dump) {
+        for i in self.infos.clone() {
+            if i.kind != Kind::Global || !i.retains() {
+                continue;
+            }
+            let (Some(before), Some(now)) = (pre.var(&i.path), after.var(&i.path)) else { continue };
+            if now == before {
+                continue;
+            }
+            let saved = self.saved.as_ref().and_then(|s| s.get(&i.path)).cloned();
+            if saved.as_deref() == Some(now) {
+                self.known("warm-rollback", format!("{}: before restart {} after restart+load {} (file content)", i.path, before, now));
+            } else {
+                self.fail("warm-reload", format!("{}: before={} after={} saved={:?}", i.path, before, now, saved));
             }
         }
     }
@@ -354,30 +377,18 @@ impl<'a> Runner<'a> {
             .unwrap_or_default();
         let detail = format!("after `{what}` differs in {}{first_var}", diff.join("+"));
         let only_images = diff.iter().all(|d| *d == "Q" || *d == "M");
-        if only_images {
-            // stale %Q/%M bytes only: keep comparing the rest of the continuation
-            self.out.count("twin_steps_images_only");
-            if q_nz || m_nz {
-                self.known("images-kept", detail);
-            } else {
-                self.twin = Some((q_nz, m_nz, true));
-                self.fail("cold-fresh", detail);
-            }
+        if only_images && !self.flags.inst_bindings {
+            // the images are zeroed by a cold restart: a difference in %Q/%M alone can only come
+            // from a stale binding publishing an orphaned instance
+            self.twin = Some((q_nz, m_nz, true));
+            self.fail("cold-fresh", detail);
             return;
         }
         self.twin = Some((q_nz, m_nz, true));
         self.out.count("twin_sessions_diverged");
         let mut explained = false;
-        if m_nz && self.flags.m_bindings {
-            self.known("images-kept", detail.clone());
-            explained = true;
-        }
         if self.flags.inst_bindings {
             self.known("stale-binding", detail.clone());
-            explained = true;
-        }
-        if self.flags.single_true {
-            self.known("single-init-true", detail.clone());
             explained = true;
         }
         if self.flags.cfg_init {
@@ -395,7 +406,6 @@ impl<'a> Runner<'a> {
         }
         let d0 = self.last[0].clone().unwrap();
         self.op(1, Op::Build)?;
-        self.op(1, Op::CopyIn(0))?;
         if self.store.is_some() {
             self.op(1, Op::Store(false))?;
         }
@@ -451,7 +461,7 @@ impl<'a> Runner<'a> {
                 let pre = self.last[0].clone().unwrap();
                 let post = self.op(0, Op::Restart(*m))?;
                 self.out.count(if *m == Mode::Warm { "restart_warm" } else { "restart_cold" });
-                self.check_resets(&post);
+                self.check_resets(&post, *m);
                 match m {
                     Mode::Warm => self.check_warm(&pre, &post),
                     Mode::Cold => self.check_cold_vars(&post),
@@ -459,6 +469,9 @@ impl<'a> Runner<'a> {
                 if with_load {
                     let after = self.op(0, Op::Load)?;
                     self.check_load(&post, &after);
+                    if *m == Mode::Warm {
+                        self.check_warm_after_load(&pre, &after);
+                    }
                 }
                 if *m == Mode::Cold {
                     self.start_twin(with_load)?;
@@ -471,7 +484,7 @@ impl<'a> Runner<'a> {
                 self.op(0, Op::Store(auto))?;
                 if let Some(m) = restart {
                     let d = self.op(0, Op::Restart(*m))?;
-                    self.check_resets(&d);
+                    self.check_resets(&d, *m);
                 }
                 let post = self.op(0, Op::Load)?;
                 self.out.count("power_cycles");
@@ -562,7 +575,7 @@ pub fn run(args: &Args) -> i32 {
         }
         match run_case(n, &case, &profile, &mut out, &tmp) {
             Ok(known) => {
-                if let Some(sig) = expect {
+                if let Some(Some(sig)) = expect {
                     // replay of a recorded witness: say whether the finding still reproduces
                     let idx = out.buf.rfind("\nend\n").unwrap_or(out.buf.len());
                     let line = format!(
